@@ -80,6 +80,7 @@ def prove(ctx, claim, timeout_ms=20000, with_pc="auto", extra=()):
         if r == z3.unsat:
             dt = time.time() - t0
             ctx.solver_time += dt
+            cross_check(s, "unsat")
             return dict(status="proved", model=None, t=dt, used_pc=(lvl >= 2), level=lvl)
         if r == z3.sat:
             if final:
@@ -114,6 +115,48 @@ def prove(ctx, claim, timeout_ms=20000, with_pc="auto", extra=()):
     dt = time.time() - t0
     ctx.solver_time += dt
     return dict(status="unknown", model=None, t=dt, used_pc=True, reason=last)
+
+
+CROSS = {"checked": 0, "agree": 0, "disagree": 0, "no_answer": 0, "samples": []}
+
+
+def cross_check(solver, expected, label=""):
+    """thorough tier: re-discharge a deterministic sample of proved obligations with an independent solver
+    (cvc5 binary) on the SMT-LIB2 dump of the very same query.  A sat/unsat disagreement is a harness error."""
+    import hashlib
+    import subprocess
+    import tempfile
+    if os.environ.get("VERIF_TIER_ACTIVE") != "thorough":
+        return
+    txt = solver.to_smt2()
+    h = int(hashlib.sha1(txt.encode()).hexdigest(), 16)
+    if h % 8 != 0 or len(txt) > 400000:
+        return
+    txt = txt.replace("(check-sat)", "(check-sat)\n(exit)")
+    os.makedirs("/verif/.work", exist_ok=True)
+    with tempfile.NamedTemporaryFile("w", suffix=".smt2", dir="/verif/.work", delete=False) as fh:
+        fh.write("(set-logic ALL)\n" + txt)
+        path = fh.name
+    try:
+        p = subprocess.run(["cvc5", "--lang", "smt2", "--tlimit=15000", path], capture_output=True, text=True, timeout=40)
+        out = (p.stdout or "").strip().splitlines()
+        ans = out[0] if out else ""
+    except Exception:
+        ans = ""
+    finally:
+        try:
+            os.remove(path)
+        except OSError:
+            pass
+    CROSS["checked"] += 1
+    if ans in ("sat", "unsat"):
+        if ans == expected:
+            CROSS["agree"] += 1
+        else:
+            CROSS["disagree"] += 1
+            CROSS["samples"].append(dict(label=label, z3=expected, cvc5=ans))
+    else:
+        CROSS["no_answer"] += 1
 
 
 def to_smt2(ctx, claim, use_pc=True, extra=()):
